@@ -70,6 +70,52 @@ CLAIMED = {
             "position, P_C06 (one error, then silence, no answer for the failing frame) as invariants and as trace predicates",
             "Every fault kind at every position of every script up to the depth bound, plus frames the PT might still send afterwards.",
             "DESIGN.md 8 (C06), 6", TB),
+    "C07": ("model_checking",
+            "TLA+ I-spec of the client (FeigClient: program over command exchanges) against a nondeterministic terminal with a ledger, "
+            "model-checked over all call histories (MC_Client) with the P-spec acceptors of ClientProps as invariant (I-spec => TxnMap); every "
+            "2-call and sampled 3-call history replayed against the real Feig client through the zvt_verif hook and a simulated terminal; "
+            "traces validated by TLC (TraceClient)",
+            "Bounded-exhaustive over histories (tokens {a,b}, max 0..2, every outcome, dangling yes/no; depth 3 quick, 4 thorough, 3 tokens / max "
+            "0..3 in thorough), random walks to depth 40; requests are decoded by the reference codec, so 'acts on exactly that receipt' is "
+            "checked on the wire.",
+            "DESIGN.md 8 (C07), 7", TB),
+    "C08": ("model_checking",
+            "same I-spec; TLC generates the amount / currency / receipt / token / status boundary grid (Gen_Client C08) with decimal "
+            "arithmetic in TLA+ (Decimal.tla); begin + commit run on the real client; TraceClient compares every request field and the summary",
+            "The u64 x 10^12 amount domain is covered at every boundary (0, pre-1, pre, pre+1, 2^32, 2^63, u64::MAX, every digit count in thorough) "
+            "plus random; small amounts exhaustively inside MC_Client.",
+            "DESIGN.md 8 (C08)", TB),
+    "C09": ("model_checking",
+            "TLA+ packet-level model of the reconnecting stream (ResetStream) with P_C09 invariants; TLC-generated single-fault scenarios "
+            "(every operation x exchange x frame x fault kind, handshake faults, foreign serial) and seeded multi-fault walks run on the real "
+            "client; TLC runs the P_C09 acceptor over the per-connection log (TraceConn)",
+            "Single faults exhaustively at every frame position incl. the handshake; multi-fault sequences sampled; each followed by a further "
+            "operation to observe reuse.",
+            "DESIGN.md 8 (C09), 7", TB),
+    "C10": ("model_checking",
+            "ResetStream liveness (Returns) under weak fairness and the Bounded invariant checked by TLC; the unguarded variant demonstrates the "
+            "repaired defect; stalls at every frame of every exchange and of the handshake x read_card_timeout values run on the real client "
+            "(debug and release) on tokio's paused clock under a one-virtual-day watchdog; TLC runs the P_C10 acceptor (TraceConn)",
+            "Every stall placement is enumerated; time is virtual, so 20 x 60 s budgets are explored exactly; all 256 read_card_timeout values "
+            "in thorough.",
+            "DESIGN.md 8 (C10), 7", TB),
+    "C18": ("model_checking",
+            "Classify / CanonUid stated in FeigClient + ClientProps (P18); TLC generates UID / application-list / abort-code scenarios "
+            "(Gen_Client C18); read_card runs on the real client; TraceClient compares",
+            "UID lengths 0..20 x zero-prefix and case patterns x list shapes x leading intermediates, all 256 abort codes, plus random UIDs.",
+            "DESIGN.md 8 (C18)", TB),
+    "C19": ("model_checking",
+            "MC_Client with P19 as invariant over all histories incl. ledgers with a dangling pre-authorisation and every end-of-day outcome; "
+            "replayed histories, every end-of-day abort code behind idle-going commits and cancels, random walks; P19 evaluated by TLC over "
+            "the terminal's request log of each call",
+            "Bounded-exhaustive over histories; the request chain FFFF-query -> reversal of the reported receipt -> end-of-day is compared "
+            "request by request.",
+            "DESIGN.md 8 (C19)", TB),
+    "C20": ("model_checking",
+            "MC_Client (with configure) checks P20 on the I-spec; TLC generates result code x operation x exchange x position scenarios "
+            "(Gen_Client C20); the real client runs them; TraceClient evaluates P20 with the specification's own message table",
+            "All 256 codes x every exchange of every operation in thorough (every 16th + the named codes in quick).",
+            "DESIGN.md 8 (C20)", TB),
     "C11": ("model_checking",
             "TLA+ spec of the upload (WriteFile.tla: path/id table, Slice; ZvtSequence step function with data requests) model-checked "
             "(MC_Upload, MC_Sequence for WriteFile); real uploads from seeded random directories on disk recorded and validated by TLC "
